@@ -35,7 +35,7 @@ ASSUMPTIONS = ["completeness not asserted (a safe override being refused is allo
                "pattern does not narrow the parent's"]
 REQUIRED_CLASSES = {"all": ["accepted_narrowing", "refused_with_witness", "override_declared", "middle_unregistered",
                             "mandatory_then_optional", "extra_forbid_parent", "installed_ancestor_parse",
-                            "refusal_sticky_register", "refusal_sticky_ep"]}
+                            "refusal_sticky_register", "refusal_sticky_ep", "mandatory_several_names"]}
 BUDGET_S = {"quick": 900, "thorough": 3 * 3600}
 NSHARD = 12
 
@@ -65,7 +65,7 @@ def mk(base, ann=None, plugin=False, ovr=False, mandatory=False, extra=None, add
     cls = SchemaMetaclass(name, (base,), ns)
     setattr(G.GENMOD, name, cls)
     if mandatory:
-        cls = make_mandatory("x")(cls)
+        cls = make_mandatory(*(("x",) if mandatory is True else mandatory))(cls)
     if ovr:
         cls = override("x")(cls)
     return cls
@@ -119,7 +119,7 @@ CORPUS = [None, True, False, 0, 1, -1, 7, 2 ** 40, 0.0, 1.0, -1.5, 0.5, "", " ",
           {"b": 1, "s": "x"}, {"o": True}, [{"b": 1}], [{"b": 1, "s": "x"}], [{}], {"b": "1"}, "1", [0, 1], ["A"], "text/plain;x",
           {"b": "text"}, [{"b": "text"}]]
 
-SHAPES = ["direct", "direct_override", "middle", "middle_override", "mandatory_then", "forbid_parent"]
+SHAPES = ["direct", "direct_override", "middle", "middle_override", "mandatory_then", "mandatory_multi_then", "forbid_parent"]
 
 
 def build_chain(ptype, ctype, shape):
@@ -145,6 +145,11 @@ def build_chain(ptype, ctype, shape):
     if shape == "mandatory_then":  # parent Optional[P]; child makes it mandatory by decorator; grandchild re-annotates
         p = mk(MetadataSchema, Optional[ptype], plugin=True)
         m = mk(p, None, plugin=True, mandatory=True)
+        leaf = mk(m, ctype, plugin=True)
+        return [(p, False), (m, False)], leaf
+    if shape == "mandatory_multi_then":  # as above, but the decorator is given several names and x is not the last one
+        p = mk(MetadataSchema, Optional[ptype], plugin=True, add_field=True)
+        m = mk(p, None, plugin=True, mandatory=("x", "y"))
         leaf = mk(m, ctype, plugin=True)
         return [(p, False), (m, False)], leaf
     if shape == "forbid_parent":
@@ -174,8 +179,10 @@ def check_pair(pname, ptype, cname, ctype, shape, rec=None):
         classes.append("override_declared")
     if shape.startswith("middle"):
         classes.append("middle_unregistered")
-    if shape == "mandatory_then":
+    if shape in ("mandatory_then", "mandatory_multi_then"):
         classes.append("mandatory_then_optional")
+    if shape == "mandatory_multi_then":
+        classes.append("mandatory_several_names")
     if shape == "forbid_parent":
         classes.append("extra_forbid_parent")
     if refused:
@@ -189,7 +196,7 @@ def check_pair(pname, ptype, cname, ctype, shape, rec=None):
     accepted_vals = 0
     for v in CORPUS:
         try:
-            o = leaf(x=v)
+            o = leaf(x=v, y=1) if shape == "mandatory_multi_then" else leaf(x=v)
         except (ValidationError, TypeError, ValueError):
             continue
         accepted_vals += 1
@@ -203,7 +210,7 @@ def check_pair(pname, ptype, cname, ctype, shape, rec=None):
             try:
                 a.parse_raw(raw)
             except Exception as e:  # noqa: BLE001
-                kind = "undeclared-override-accepted" if pname != cname or shape == "mandatory_then" else "same-type"
+                kind = "undeclared-override-accepted" if pname != cname or shape.startswith("mandatory") else "same-type"
                 raise Violation(f"C13:child-accepts-parent-rejects:{shape}:{kind}",
                                 f"parent field {pname}, child field {cname}, shape {shape}: leaf accepts x={v!r} (serialised {raw[:80]!r}) "
                                 f"but ancestor {a.__name__} rejects it: {str(e)[:160]}", "refused by check_types, or parent accepts")
@@ -269,8 +276,8 @@ def check_sticky(pname, ptype, cname, ctype, how, rec):
 def _find_witness_by_types(ptype, ctype, shape):
     """For a refused pair: is there a corpus value the child type accepts and the parent type rejects?"""
     try:
-        p = mk(MetadataSchema, Optional[ptype] if shape == "mandatory_then" else ptype)
-        if shape == "mandatory_then":
+        p = mk(MetadataSchema, Optional[ptype] if shape.startswith("mandatory") else ptype)
+        if shape.startswith("mandatory"):
             p = mk(p, None, mandatory=True)
         c = mk(MetadataSchema, ctype)
     except Exception:  # noqa: BLE001
@@ -360,7 +367,7 @@ def run_shard(shard, tier, seed, rec):
             for cn in names:
                 pn = names[ia]
                 for shape in SHAPES:
-                    if shape == "mandatory_then" and pn.startswith("Optional["):
+                    if shape.startswith("mandatory") and pn.startswith("Optional["):
                         continue
                     try:
                         check_pair(pn, P[pn], cn, P[cn], shape, rec)
@@ -411,7 +418,7 @@ def run_shard(shard, tier, seed, rec):
         def t_deep(c):
             pn, pt = mkdeep(c[0], c[1])
             cn, ct = mkdeep(c[2], c[3])
-            if c[4] == "mandatory_then" and pn.startswith("Optional["):
+            if c[4].startswith("mandatory") and pn.startswith("Optional["):
                 return
             try:
                 check_pair(pn, pt, cn, ct, c[4], rec)
